@@ -357,7 +357,10 @@ class Spec(object):
 
     def fork(self, st):
         memo = {id(self.base): self.base} if self.base is not None else {}
-        n = State(copy.deepcopy(st.b, memo))
+        # (builder and the format taken from it earlier are copied TOGETHER: whatever they share stays shared)
+        b2, kept2 = copy.deepcopy((st.b, getattr(st, "kept", None)), memo)
+        n = State(b2)
+        n.kept = kept2
         n.own = {k: list(v) for k, v in st.own.items()}
         n.canon = st.canon
         return n
@@ -479,6 +482,14 @@ class Spec(object):
                     return [v]
         else:
             raise ValueError(op)
+        # a format taken from the builder EARLIER is finished: later operations on the builder do not reach it
+        kept = getattr(st, "kept", None)
+        if kept is not None:
+            d = check_answers("earlier-format", kept[0], kept[1])
+            if d:
+                v = sorted(d.items())[0][1]
+                return [report.viol("earlier-format-changed:" + v["sig"].split(":")[-1], "a format taken from the builder before %r changed with the builder: %s" % (op[:2], v["what"]),
+                                    None, v.get("expected"), v.get("observed"))]
         return self.verify(st)
 
     def resync(self, st, k, candidates):
@@ -520,6 +531,7 @@ class Spec(object):
         if v:
             return [v]
         answers = expected_answers(self.levels(st))
+        st.kept = (fmt, answers)
         if sum(len(v) for lv in self.levels(st) for v in lv.values()) >= 2:
             self.n_nontrivial += 1
         out = []
